@@ -2,6 +2,7 @@ import FtdcVerif.Lemmas.Codec
 import FtdcVerif.Lemmas.EndToEnd
 import FtdcVerif.Lemmas.StreamE2E
 import FtdcVerif.Lemmas.SDynE2E
+import FtdcVerif.Lemmas.FileE2E
 /-!
 # C01 — structured round trip is lossless
 
@@ -445,5 +446,38 @@ example : ∃ runs : List (BDoc × List BDoc),
         · subst hd; exact good_a 98 (by omega) _
         · subst hd; exact good_a 97 (by omega) _)
   exact ⟨runs, h1, by rw [h2]; simp [chunkDocs]⟩
+
+/-! ### at the byte level: the collectors' output as a file, read back by `ReadChunks`
+
+`Lemmas/FileE2E.lean`: the outer documents `{_id, type, doc | data}` are serialised (`wireDoc`, `fileBytes`), the reader
+model frames, parses and decodes them; zlib is a pair of functions of which only `inflate (deflate p) = p` with a clean
+end is assumed (`ZlibOK`).  The remaining hypotheses concern sizes (`SizesOK`: every written document below 2^31 bytes;
+a metadata document, which is user input, well-formed). -/
+
+open Ftdc.Props.C07 in
+/-- **the streaming collector, end to end at the byte level** (every chunk size, every number of documents, any
+schemas, rejected documents included): the BYTES handed to the writer are read back without error, and the samples of
+the chunks delivered followed by the pending samples are exactly the accepted documents' values, once each, in order -/
+theorem streaming_file_roundtrip (n : Nat) (hn : n < 2 ^ 32) (ds : List BDoc) (hds : ∀ d ∈ ds, DocOK d)
+    (deflate : Bytes → Bytes) (inflate : Inflate) (hz : FileE2E.ZlibOK deflate inflate) (now : I64)
+    (hsz : FileE2E.SizesOK deflate now (loggedDocs (ds.foldl addLog (Streaming.new n, [])).1.out)) :
+    let r := ds.foldl addLog (Streaming.new n, [])
+    let file := FileE2E.fileBytes deflate now (loggedDocs r.1.out)
+    (readAll inflate file).err = none ∧
+    ((readAll inflate file).chunks.map Chunk.rows).flatten ++ r.1.inner.samples =
+      r.2.map fun x => (extractDoc x).map (·.1) :=
+  FileE2E.streaming_file_roundtrip n hn ds hds deflate inflate hz now hsz
+
+open Ftdc.Props.C07 in
+/-- **the batch collector, end to end at the byte level**: what `Resolve` returns, as bytes, is read back without error
+into exactly the samples the collector holds (= the accepted ones, `C07.batch_faithful_log`) -/
+theorem batch_file_roundtrip (n : Nat) (hn : n < 2 ^ 32) (ds : List BDoc) (hds : ∀ d ∈ ds, DocOK d)
+    (deflate : Bytes → Bytes) (inflate : Inflate) (hz : FileE2E.ZlibOK deflate inflate) (now : I64)
+    (out : List OutDoc) (hres : (ds.foldl (fun b d => (b.add d).1) (Batch.new n)).resolve = some out)
+    (hsz : FileE2E.SizesOK deflate now out) :
+    (readAll inflate (FileE2E.fileBytes deflate now out)).err = none ∧
+    ((readAll inflate (FileE2E.fileBytes deflate now out)).chunks.map Chunk.rows).flatten =
+      (ds.foldl (fun b d => (b.add d).1) (Batch.new n)).samples :=
+  FileE2E.batch_file_roundtrip n hn ds hds deflate inflate hz now out hres hsz
 
 end Ftdc.Props.C01
